@@ -65,7 +65,7 @@ def _analyses():
             [a1.lin, a3.jvp, a3.helpers, a3_reduce.reductions, a16_perm.norm_rolls, ka.sibling_guards, jvp_axis, a2.catchall, a1.arity, kc.zero_paths, a5_factor.agree],
             "Forward-mode: 'same'/def_linear only on linear (function, argument) pairs (A1.lin: exactly when the primitive applied to the tangent IS the JVP), "
             "output-shaped tangents of broadcasting JVPs (A3.jvp), guard agreement with the VJP twin (A6.sibling), axis hazards (A7) and binding (A2) of JVP makers, "
-            "(value, tangent) order and zero tangents of the right space (A13.zero/A2.tuple).",
+            "(value, tangent) order and zero tangents of the right space (A13.zero/A2.tuple), VJP/JVP factor agreement of elementwise rules (A5).",
         ),
         "C03": (
             [kc.backward_pass, km.toposort, kc.dispatch, kt.wrapper, kc.raise_discipline, ka.arraybox_table],
